@@ -193,6 +193,8 @@ void OPNMIDIplay::partialReset()
     realTime_panic();
     m_setup.tick_skip_samples_delay = 0;
     synth.m_runAtPcmRate = m_setup.runAtPcmRate;
+    if(!synth.setupLocked())
+        synth.m_numChips = m_setup.numChips; // (the VGM dumper core lowers it to 2 for itself)
     synth.reset(m_setup.emulator, m_setup.PCM_RATE, synth.chipFamily(), this);
     m_chipChannels.clear();
     m_chipChannels.resize(synth.m_numChannels);
